@@ -1043,3 +1043,12 @@ def describe(tier):
                      "inputs-modified finding reported at the call that changed them, not reported again",
                      "all recordings of a root have the same length and time step; alias method names and "
                      "dissimilar time steps are not exercised (C01 / C03)"])
+
+
+_describe_base = describe
+
+
+def describe(tier):     # noqa: F811 - the base description plus what later rounds added to the space
+    d = _describe_base(tier)
+    d["rule"] = d["rule"] + " " + "Once per (number of recordings, kind, FFT request != nopad) an interleaved scenario is executed in a fresh child of the pristine server: call; short decoy; a 40000-sample window with default FFT settings; three refused calls on the caller's recordings; equal data with a taper 0.004 wider; the call again with the same settings object; and with a pristine settings object - all three results must be identical."
+    return d
